@@ -428,6 +428,53 @@ example :
       m.getDependency (Str.ofString "b") none none 2 = none := by
   decide
 
+/-! ## the writers of the distrib types (`Repository.create` always passes `flavor=self.flavor`) -/
+
+/-- **Through the tarball writer every entry keeps its own flavor, whatever `flavor=` it is called with.**  The
+tarball type forces `flavor=None` before it calls `Manifest.write`: the text it deploys is the text written without
+a `flavor=` argument, and the flavor column of every entry that has a flavor of its own is that flavor — a `generic`
+dependency among `Linux` binaries stays `generic`. -/
+theorem C18_tarball_writer_keeps_flavors (o : WriteOpts) (m : Manifest) :
+    distribWriteManifest .tarball o m = distribWriteManifest .tarball { o with flavor := none } m ∧
+      ∀ p f, p.flavor = some f → f ≠ [] → flavorCol (writerOpts .tarball o) (distribTable p) = f := by
+  refine ⟨rfl, ?_⟩
+  intro p f hf hne
+  exact C18_manifest_keeps_flavor (writerOpts .tarball o) (distribTable p) f rfl (by simp [distribTable, hf]) hne
+
+/-- the tarball writer's manifest is read back entry by entry with the flavors written (instance of the round trip) -/
+theorem C18_tarball_writer_roundtrip (o : WriteOpts) (m : Manifest) (recurse : Bool)
+    (hn : Tok o.native)
+    (hprod : ∀ s, m.product = some s → Tok s) (hver : ∀ s, m.version = some s → Tok s)
+    (hd : ∀ p ∈ written (writerOpts .tarball o) { m with deps := m.deps.map distribTable }, DepOk p) :
+    read false recurse (distribWriteManifest .tarball o m) =
+      .ok { product := some (m.product.getD sUNKNOWN), version := some (m.version.getD sGeneric),
+            deps := (written (writerOpts .tarball o) { m with deps := m.deps.map distribTable }).map
+              (roundDep (writerOpts .tarball o) recurse) } := by
+  have := C18_manifest_roundtrip (writerOpts .tarball o) [] { m with deps := m.deps.map distribTable } recurse
+    hn (by first | (simp [writerOpts, writerFlavor, OptTok, falsy]) | (simp [writerOpts, writerFlavor, OptTok]; rfl))
+    hprod hver (by intro l hl; cases hl) hd
+  exact this
+
+/-- **The other writers forward the keyword (witness of the difference):** the same mixed-flavor manifest written with
+`flavor=Linux` — through the tarball writer `scons` stays `generic`, through `DefaultDistrib.writeManifest` (builder,
+pacman, eupspkg) `Manifest.write(flavor="Linux")` sets it to `Linux`. -/
+theorem C18_default_writer_forwards_flavor_witness :
+    let d1 : Dep := { product := Str.ofString "scons", version := Str.ofString "2.0", flavor := some sGeneric,
+                      tablefile := none, instDir := none, distId := some (Str.ofString "scons-2.0.tar.gz") }
+    let d2 : Dep := { product := Str.ofString "afw", version := Str.ofString "1.0", flavor := some (Str.ofString "Linux"),
+                      tablefile := some (Str.ofString "afw.table"), instDir := some (Str.ofString "Linux/afw/1.0"),
+                      distId := some (Str.ofString "afw-1.0.tar.gz") }
+    let m : Manifest := { product := some (Str.ofString "top"), version := some (Str.ofString "1.0"), deps := [d1, d2] }
+    let o : WriteOpts := { flavor := some (Str.ofString "Linux"), native := Str.ofString "Linux" }
+    let t1 : Dep := { d1 with tablefile := some (Str.ofString "none"), instDir := some (Str.ofString "none") }
+    let t2 : Dep := { d2 with tablefile := some (Str.ofString "afw-1.0.table") }
+    (read false false (distribWriteManifest .tarball o m)).toOption =
+        some { product := some (Str.ofString "top"), version := some (Str.ofString "1.0"), deps := [t1, t2] } ∧
+      (read false false (distribWriteManifest .default o m)).toOption =
+        some { product := some (Str.ofString "top"), version := some (Str.ofString "1.0"),
+               deps := [{ t1 with flavor := some (Str.ofString "Linux") }, t2] } := by
+  decide
+
 /-! ## `Distrib._createDeps`: the dependency manifest is in install order -/
 
 /-- **The product being packaged comes last.**  Whatever the dependency list: when `_createDeps` succeeds, the last
